@@ -303,7 +303,10 @@ let f _id vs =
                       | Some flag -> known flag
                       | None ->
                         (match explain got o rel with
-                         | Some "detector_miss_reflexive" when mrc <> RNone || (match excl_reason m subj o rel with Some RNone -> false | _ -> true) ->
+                         | Some "detector_miss_reflexive"
+                           when server_reason kind v2 v1 mrc (match excl_reason m subj o rel with Some x -> x | None -> RNone) <> RNone ->
+                           (* (what pkg/server/check.go would log from the MODEL's detector results for this
+                              outcome: e.g. CheckExclusionReason is only consulted on the fallback path) *)
                            (* the listed finding is a miss of the detector AS MODELLED; a shape the detector
                               model does report is a regression of the real detector *)
                            prop "the real breaking-change detector reports nothing on a shape its model (Check/V2Breaking.v) reports"
